@@ -1767,26 +1767,34 @@ func indexArg(index reflect.Value, cap int) (int, error) {
 }
 
 func buildCache(typ reflect.Type, cache map[string][]int, parent []int) {
-	numFields := typ.NumField()
-	max := len(parent) + 1
-
-	for i := 0; i < numFields; i++ {
-
-		index := make([]int, max)
-		copy(index, parent)
-		index[len(parent)] = i
-
-		field := typ.Field(i)
-		if field.PkgPath != "" {
-			// field is unexported, skip
-			continue
-		}
-		if field.Anonymous {
-			typ := field.Type
-			if typ.Kind() == reflect.Struct {
-				buildCache(typ, cache, index)
+	// Breadth first, one embedding depth at a time: a name declared at a shallower depth
+	// hides the same name further down, as in Go's own field selection.
+	type embedded struct {
+		typ   reflect.Type
+		index []int
+	}
+	current := []embedded{{typ, parent}}
+	for len(current) > 0 {
+		var next []embedded
+		for _, e := range current {
+			numFields := e.typ.NumField()
+			for i := 0; i < numFields; i++ {
+				field := e.typ.Field(i)
+				if field.PkgPath != "" {
+					// field is unexported, skip
+					continue
+				}
+				index := make([]int, len(e.index)+1)
+				copy(index, e.index)
+				index[len(e.index)] = i
+				if _, shallower := cache[field.Name]; !shallower {
+					cache[field.Name] = index
+				}
+				if field.Anonymous && field.Type.Kind() == reflect.Struct {
+					next = append(next, embedded{field.Type, index})
+				}
 			}
 		}
-		cache[field.Name] = index
+		current = next
 	}
 }
